@@ -1,4 +1,5 @@
 import Mastverif.Model.Store
+import Mastverif.Model.Json
 /-!
 # ML — `LoadMast` (pub.go:561-614) with the checks in the order the Go code runs them
 
@@ -50,9 +51,11 @@ def ascending (desc : Bool) : List Nat → Bool
   | a :: b :: rest => (if desc then b < a else a < b) && ascending desc (b :: rest)
   | _ => true
 
-/-- decode + validate the top node of format "v1.1.5binary" under the loader's configuration -/
-def checkTopBin (kk : KeyKind) (layer : Nat → Nat) (height : Nat) (desc : Bool) (bytes : Bytes) : Outcome :=
-  match Codec.decBinRaw bytes with
+/-- decode (with the format's decoder `dec`) + validate the top node under the loader's
+    configuration -/
+def checkTop (dec : Bytes → Option Codec.RawNode) (kk : KeyKind) (layer : Nat → Nat) (height : Nat)
+    (desc : Bool) (bytes : Bytes) : Outcome :=
+  match dec bytes with
   | none => .err "undecodable"
   | some raw =>
       -- absent bodies decode to nil keys, which the key order rejects
@@ -67,6 +70,11 @@ def checkTopBin (kk : KeyKind) (layer : Nat → Nat) (height : Nat) (desc : Bool
           else if keys.any (fun k => layer k < height) then .err "layer"
           else .ok
 
+/-- format "v1.1.5binary" (`unmarshalMastNode`) -/
+abbrev checkTopBin := checkTop Codec.decBinRaw
+/-- format "v1marshaler" (`unmarshalStringNode`, canonical shape: see Model/Json.lean) -/
+abbrev checkTopJson := checkTop Json.decJson
+
 /-- `LoadMast`: `top = none` means the store has no node under the root's link -/
 def loadMast (fmt : String) (kk : KeyKind) (layer : Nat → Nat) (height : Nat) (desc : Bool)
     (link : Bool) (top : Option Bytes) : Outcome :=
@@ -79,7 +87,7 @@ def loadMast (fmt : String) (kk : KeyKind) (layer : Nat → Nat) (height : Nat) 
         | some bytes =>
             match f with
             | .bin => checkTopBin kk layer height desc bytes
-            | .json => .err "json-not-modelled"
+            | .json => checkTopJson kk layer height desc bytes
 
 end Loader
 end Mast
